@@ -160,6 +160,12 @@ class _CacheServiceBase(Generic[CacheValueT]):
                 return obj
             except TypeError:
                 # Object is not hashable, convert it
+                if isinstance(obj, dict):
+                    # keep the values: iterating a dict yields only its keys, which
+                    # made option sets differing in a (nested) value share one entry
+                    return tuple(
+                        (_make_hashable(k), _make_hashable(v)) for k, v in obj.items()
+                    )
                 if hasattr(obj, '__iter__') and not isinstance(obj, (str, bytes)):
                     # Convert iterables (like numpy arrays) to tuples
                     try:
